@@ -295,20 +295,34 @@ Definition ext_sort (srt : list (N * N) -> list (N * N)) (rev : bool) (cs : nat)
 Definition ext_sort_isort (rev : bool) (cs : nat) (input : list (N * N)) := ext_sort (isort (kltb rev)) rev cs input.
 
 (* ---------- temp-directory protocol (C15): judged on directory listings taken by the harness ---------- *)
-(* a listing is a list of entry names (relative paths); [before] = at build time, [during] = any snapshot while the
-   sorter or its iterator is alive, [after] = once both have been dropped *)
+(* a listing is the recursive list of entry names (paths relative to a scratch root that holds the configured
+   directory [cfg] and, next to it, the directory that TMPDIR points to); [before] = at build time, [during] = any
+   snapshot while the sorter or its iterator is alive, [after] = once both have been dropped *)
 Definition str_in (x : bytes) (l : list bytes) : bool := existsb (bytes_eqb x) l.
 Definition subset_b (a b : list bytes) : bool := forallb (fun x => str_in x b) a.
 Definition same_set (a b : list bytes) : bool := subset_b a b && subset_b b a.
-(* entries not present before: at most one new top-level directory, and nothing visible inside it *)
 Definition new_entries (before l : list bytes) : list bytes := filter (fun x => negb (str_in x before)) l.
 Definition has_sep (x : bytes) : bool := existsb (fun b => b =? 47) x.
-Definition during_ok (before l : list bytes) : bool :=
+Fixpoint strip_prefix (p s : bytes) : option bytes :=
+  match p, s with
+  | [], _ => Some s
+  | _ :: _, [] => None
+  | a :: p', b :: s' => if a =? b then strip_prefix p' s' else None
+  end.
+(* d is a direct child of the configured directory: cfg ++ "/" ++ name, name without '/' and non-empty *)
+Definition direct_child (cfg d : bytes) : bool :=
+  match strip_prefix (cfg ++ [47]) d with
+  | Some name => negb (has_sep name) && negb (match name with [] => true | _ => false end)
+  | None => false
+  end.
+(* entries not present before: at most ONE, and it is a direct child of the configured directory
+   (nothing visible inside it, nothing anywhere else, e.g. under TMPDIR when a directory was configured) *)
+Definition during_ok' (cfg : bytes) (before l : list bytes) : bool :=
   subset_b before l &&
   match new_entries before l with
   | [] => true
-  | [d] => negb (has_sep d)
+  | [d] => direct_child cfg d
   | _ => false
   end.
-Definition tmp_ok (before : list bytes) (during : list (list bytes)) (after : list bytes) : bool :=
-  forallb (during_ok before) during && same_set before after.
+Definition tmp_ok (cfg : bytes) (before : list bytes) (during : list (list bytes)) (after : list bytes) : bool :=
+  forallb (during_ok' cfg before) during && same_set before after.
